@@ -290,7 +290,7 @@ def check_decoded(ctx, entry, t, sig):
 
         finish(guarded(fn), chk)
     elif entry in ("with_query_dict", "with_query_seq", "with_query_mdict", "build.query", "update_query_dict", "with_query_seq_strsub", "extend_query_seq_strsub", "with_query_kwargs_key", "extend_query_kwargs_key",
-                   "update_query_seq_strsub", "with_query_dict_strsub", "with_query_kwargs_strsub"):
+                   "update_query_seq_strsub", "with_query_dict_strsub", "with_query_kwargs_strsub", "with_query_dict_tuple", "build.query_tuple", "update_query_dict_listsub", "extend_query_mdict_tuple"):
         from ..ops import StrSub
 
         k, v = t, t[::-1]
@@ -330,6 +330,16 @@ def check_decoded(ctx, entry, t, sig):
             fn, pairs = (lambda: base.with_query(MultiDict([(k, v), (k, "2")]))), [(k, v), (k, "2")]
         elif entry == "build.query":
             fn, pairs = (lambda: URL.build(scheme="http", host="h", query={k: [v, "x"]})), [(k, v), (k, "x")]
+        # multi-valued keys through every sequence flavour the mapping route accepts (tuple, list subclass): EVERY pair carries the quoted key
+        elif entry == "with_query_dict_tuple":
+            fn, pairs = (lambda: base.with_query({k: (v, "x", k)})), [(k, v), (k, "x"), (k, k)]
+        elif entry == "build.query_tuple":
+            fn, pairs = (lambda: URL.build(scheme="http", host="h", query={k: (v, "x"), k + "z": ("1",)})), [(k, v), (k, "x"), (k + "z", "1")]
+        elif entry == "update_query_dict_listsub":
+            fn, pairs = (lambda: base.update_query({k: _ListSub([v, "x"])})), [(k, v), (k, "x")]
+            pre = [("q", "1")] if k != "q" else []
+        elif entry == "extend_query_mdict_tuple":
+            fn, pairs, pre = (lambda: base.extend_query(MultiDict([(k, (v, "x")), (k, _TupleSub(("y", v)))]))), [(k, v), (k, "x"), (k, "y"), (k, v)], [("q", "1")]
         else:
             fn, pairs = (lambda: base.update_query({k: v})), [(k, v)]
             pre = [("q", "1")] if k != "q" else []
@@ -352,7 +362,16 @@ def check_decoded(ctx, entry, t, sig):
 DECODED_ENTRIES = ["build.user", "build.password", "build.password_nouser", "build.password_emptyuser", "with_user", "with_password", "with_fragment", "build.fragment", "with_path", "build.path", "with_path_rel",
                    "build.path_noauth", "with_name", "div", "joinpath", "div_rel", "with_query_str", "build.query_string", "extend_query_str", "with_query_dict",
                    "with_query_seq", "with_query_mdict", "build.query", "update_query_dict", "with_query_seq_strsub", "extend_query_seq_strsub", "update_query_seq_strsub",
-                   "with_query_dict_strsub", "with_query_kwargs_strsub", "with_query_kwargs_key", "extend_query_kwargs_key"]
+                   "with_query_dict_strsub", "with_query_kwargs_strsub", "with_query_kwargs_key", "extend_query_kwargs_key",
+                   "with_query_dict_tuple", "build.query_tuple", "update_query_dict_listsub", "extend_query_mdict_tuple"]
+
+
+class _ListSub(list):
+    pass
+
+
+class _TupleSub(tuple):
+    pass
 
 
 # ---------------------------------------------------------------------- join
